@@ -164,6 +164,14 @@ def C05(t, m, ctx):
         )
         for g in got:
             seen[g["lru"]] += 1
+            # ... and agrees with the index's own resolution of that page
+            try:
+                rw = t.retrieve_webentity(g["lru"])
+            except Exception as e:  # the library's error: the page resolves to nothing
+                rw = None
+                if type(e).__name__ != "TraphException":
+                    raise
+            expect(rw == w, "C05: a page listed under a webentity resolves to another one (or to none)", {"weid": w, "lru": repr(g["lru"]), "resolves_to": rw})
         gotc = t.get_webentity_crawled_pages(w, ps)
         expect(
             sorted(g["lru"] for g in gotc) == sorted(l for l, c in exp.items() if c) and all(g["crawled"] is True for g in gotc),
